@@ -153,6 +153,8 @@ static void upipe_chunk_stream_flush(struct upipe *upipe)
                ? upipe_chunk_stream->size
                : ((remaining / upipe_chunk_stream->align)
                            * upipe_chunk_stream->align);
+        if (unlikely(!size))
+            break; /* less than the alignment remains: drop the tail */
 
         uref = upipe_chunk_stream_extract_uref_stream(upipe, size);
         if (unlikely(!uref)) {
